@@ -239,6 +239,29 @@ func c01Equal(orig *packet.Packet, bit int) *hx.Failure {
 	if packet.Equal(&a, &b) || a.Equals(&b) || b.Equals(&a) || packet.Equal(&b, &a) {
 		return hx.Failf("equal-flip", "packets differing in bit %d of byte %d compare equal", bit%8, bit/8)
 	}
+	// the same difference pattern at several positions (would cancel in a folded/XOR-accumulated comparison)
+	for _, stride := range []int{8, 16, 4, 1, 64} {
+		c := *orig
+		i := bit / 8
+		j := (i + stride) % 188
+		mask := byte(1) << uint(bit%8)
+		if bit%3 == 0 {
+			mask = 0xFF
+		}
+		c[i] ^= mask
+		c[j] ^= mask
+		if i != j && (packet.Equal(&a, &c) || a.Equals(&c) || c.Equals(&a)) {
+			return hx.Failf("equal-multi", "packets differing in bytes %d and %d (same pattern %#02x) compare equal", i, j, mask)
+		}
+		k := (j + stride) % 188
+		if k != i && k != j {
+			c[k] ^= mask
+			c[(k+stride)%188] ^= mask
+			if packet.Equal(&a, &c) || c.Equals(&a) {
+				return hx.Failf("equal-multi", "packets differing in four bytes (stride %d, same pattern %#02x) compare equal", stride, mask)
+			}
+		}
+	}
 	if packet.Equal(&a, nil) || packet.Equal(nil, &a) || a.Equals(nil) {
 		return hx.Failf("equal-nil", "a packet compares equal to nil")
 	}
